@@ -730,6 +730,7 @@ impl W {
                 ret: ret.clone(),
                 body: Block { stmts: vec![], tail: Some(Box::new(tree)) },
             }],
+            layout: 0,
         };
         // model
         let mut it = Interp::new(&prog, vec![], 10_000);
